@@ -342,8 +342,7 @@ func (r *runner) run(p *program, seq int) {
 			if !done {
 				moved = true
 			}
-			_ = before
-			r.w.Emit(trace.Ev{"t": "compact", "done": done, "err": errName(err)})
+			r.w.Emit(trace.Ev{"t": "compact", "done": done, "err": errName(err), "ntab": before.NumTables, "len": before.Length})
 		case "compactall":
 			// run compaction to completion, as the DMap's compaction worker does
 			st0 := s.Stats()
@@ -351,8 +350,9 @@ func (r *runner) run(p *program, seq int) {
 			// logged so that TLC sees the bound exceeded, then the loop gives up
 			limit := st0.NumTables + st0.Length/1000 + 12
 			for j := 0; j < limit; j++ {
+				before := s.Stats()
 				done, err := s.Compaction()
-				r.w.Emit(trace.Ev{"t": "compact", "done": done, "err": errName(err)})
+				r.w.Emit(trace.Ev{"t": "compact", "done": done, "err": errName(err), "ntab": before.NumTables, "len": before.Length})
 				if !done {
 					moved = true
 				}
